@@ -1,5 +1,7 @@
-(* Design probe: C06 - quorum arithmetic and primary rotation, for all N. *)
-From Coq Require Import ZArith Lia List.
+(* C06 - quorum arithmetic and primary rotation, for every validator count. The definitions are the Go expressions
+   of context.go (N, F, M, GetPrimaryIndex); Node/Model.v uses the same expressions (lemmas in Properties/C06.v). *)
+From Coq Require Import ZArith Lia List Arith.
+Import ListNotations.
 From Coq Require Import ZifyBool.
 Ltac Zify.zify_post_hook ::= Z.div_mod_to_equations.
 Open Scope Z_scope.
@@ -61,5 +63,72 @@ Qed.
 Example rotation_across_wrap_refuted :
   primary (2 ^ 32 - 1) 0 3 = primary ((2 ^ 32 - 1 + 1) mod 2 ^ 32) 0 3.
 Proof. vm_compute. reflexivity. Qed.
-Print Assumptions primary_is_mod.
-Print Assumptions two_quorums_share_more_than_F.
+
+(* exactly once: on a window of n consecutive views (heights) the primary map is a bijection onto [0,n) *)
+Lemma rotation_heights_surj v n h0 k : 1 <= n -> 0 <= k < n -> exists h, h0 <= h < h0 + n /\ primary h v n = k.
+Proof.
+  intros Hn Hk. exists (h0 + (k + v - h0) mod n).
+  pose proof (Z.mod_pos_bound (k + v - h0) n ltac:(lia)). split; [lia|].
+  rewrite primary_is_mod by lia.
+  replace (h0 + (k + v - h0) mod n - v) with ((h0 - v) + (k + v - h0) mod n) by lia.
+  rewrite Zplus_mod_idemp_r. replace (h0 - v + (k + v - h0)) with k by lia. apply Z.mod_small; lia.
+Qed.
+
+(* every node computes the same primary: the value depends on (h, v, n) only - it is a function; stated for the record *)
+Lemma primary_deterministic h v n h' v' n' : h = h' -> v = v' -> n = n' -> primary h v n = primary h' v' n'.
+Proof. intros -> -> ->. reflexivity. Qed.
+
+(* BlockIndex = CurrentHeight()+1 in uint32 arithmetic stays a uint32 *)
+Lemma height_wrap h : 0 <= h < 2 ^ 32 -> 0 <= (h + 1) mod 2 ^ 32 < 2 ^ 32.
+Proof. intros _. apply Z.mod_pos_bound. lia. Qed.
+
+(* ---- set form: two quorums share more than F members ---- *)
+Section Pigeon.
+Definition mem (l : list Z) (x : Z) : bool := if in_dec Z.eq_dec x l then true else false.
+Lemma NoDup_app_disj (a b : list Z) : NoDup a -> NoDup b -> (forall x, In x a -> ~ In x b) -> NoDup (a ++ b).
+Proof. induction a as [|x a IH]; cbn; auto. intros Na Nb Hd. inversion Na; subst. constructor.
+  - rewrite in_app_iff. intros [H|H]; auto. apply (Hd x); auto. - apply IH; auto. Qed.
+Lemma inter_length (l1 l2 U : list Z) : NoDup l1 -> NoDup l2 -> incl l1 U -> incl l2 U ->
+  (length l1 + length l2 <= length U + length (filter (mem l2) l1))%nat.
+Proof.
+  intros N1 N2 I1 I2.
+  assert (Hlen : length l1 = (length (filter (mem l2) l1) + length (filter (fun x => negb (mem l2 x)) l1))%nat).
+  { clear. induction l1 as [|a l IH]; cbn; auto. destruct (mem l2 a); cbn; lia. }
+  assert (Hd : NoDup (filter (fun x => negb (mem l2 x)) l1 ++ l2)).
+  { apply NoDup_app_disj; auto. - apply NoDup_filter; auto.
+    - intros x Hx Hx2. apply filter_In in Hx. destruct Hx as [_ Hx]. unfold mem in Hx.
+      destruct (in_dec Z.eq_dec x l2); [discriminate|contradiction]. }
+  assert (Hi : incl (filter (fun x => negb (mem l2 x)) l1 ++ l2) U).
+  { intros x Hx. apply in_app_iff in Hx. destruct Hx as [Hx|Hx]; auto. apply filter_In in Hx. apply I1, Hx. }
+  pose proof (NoDup_incl_length Hd Hi) as Hl. rewrite app_length in Hl. lia.
+Qed.
+End Pigeon.
+
+Definition zrange (n : Z) : list Z := map Z.of_nat (seq 0 (Z.to_nat n)).
+Lemma zrange_length n : 0 <= n -> Z.of_nat (length (zrange n)) = n.
+Proof. intros. unfold zrange. rewrite map_length, seq_length. lia. Qed.
+Lemma zrange_In n x : In x (zrange n) <-> 0 <= x < n.
+Proof.
+  unfold zrange. rewrite in_map_iff. split.
+  - intros (k & <- & Hk). apply in_seq in Hk. lia.
+  - intros H. exists (Z.to_nat x). split; [lia|]. apply in_seq. lia.
+Qed.
+
+Theorem quorum_intersection n (q1 q2 : list Z) :
+  1 <= n -> NoDup q1 -> NoDup q2 ->
+  (forall x, In x q1 -> 0 <= x < n) -> (forall x, In x q2 -> 0 <= x < n) ->
+  M n <= Z.of_nat (length q1) -> M n <= Z.of_nat (length q2) ->
+  F n + 1 <= Z.of_nat (length (filter (mem q2) q1)).
+Proof.
+  intros Hn N1 N2 R1 R2 L1 L2.
+  assert (I1 : incl q1 (zrange n)) by (intros x Hx; apply zrange_In; auto).
+  assert (I2 : incl q2 (zrange n)) by (intros x Hx; apply zrange_In; auto).
+  pose proof (inter_length q1 q2 (zrange n) N1 N2 I1 I2) as Hi.
+  pose proof (zrange_length n ltac:(lia)) as Hz.
+  pose proof (two_quorums_share_more_than_F n Hn). lia.
+Qed.
+
+(* a quorum can be formed without any faulty validator when at most F are faulty *)
+Theorem quorum_without_faulty_set n (faulty : list Z) :
+  1 <= n -> Z.of_nat (length faulty) <= F n -> M n <= n - Z.of_nat (length faulty).
+Proof. intros Hn Hf. unfold M. lia. Qed.
